@@ -130,4 +130,49 @@ theorem forward_spec (l : TxList) (th : Nat) :
   · intro t ht; simp at ht; exact ⟨ht.2, ht.1⟩
   · intro t ht h; simp; exact ⟨ht, by omega⟩
 
+/-- keeping, of a gap-free list, everything below a bound (and dropping everything at or above
+the first dropped nonce) leaves a gap-free list -/
+theorem gapfree_of_downclosed (s : Nat) (l l' : List Tx) (hg : GapFree s l)
+    (hsub : l'.Sublist l)
+    (hdown : ∀ t ∈ l', ∀ u ∈ l, u.nonce < t.nonce → u ∈ l') : GapFree s l' := by
+  induction l generalizing s l' with
+  | nil =>
+    have : l' = [] := by simpa using hsub
+    subst this; simp [GapFree]
+  | cons x xs ih =>
+    unfold GapFree at hg ih ⊢
+    simp only [List.map_cons, List.length_cons, List.range'_succ, List.cons.injEq] at hg
+    obtain ⟨hx, hxs⟩ := hg
+    have hnon : ∀ u ∈ xs, s + 1 ≤ u.nonce := by
+      intro u hu
+      have : u.nonce ∈ xs.map (·.nonce) := List.mem_map_of_mem hu
+      rw [hxs] at this
+      simp [List.mem_range'] at this
+      omega
+    cases hsub with
+    | cons _ hs' =>
+      -- x dropped: then nothing of xs may be kept
+      cases l' with
+      | nil => simp
+      | cons y ys =>
+        exfalso
+        have hy : y ∈ xs := hs'.subset (by simp)
+        have hxl' := hdown y (by simp) x (by simp) (by have := hnon y hy; omega)
+        have hxin : x ∈ xs := hs'.subset hxl'
+        have := hnon x hxin
+        omega
+    | cons_cons _ hs' =>
+      rename_i ys
+      simp only [List.map_cons, List.length_cons, List.range'_succ, List.cons.injEq]
+      refine ⟨hx, ih (s + 1) ys hxs hs' ?_⟩
+      intro t ht u hu hlt
+      have := hdown t (List.mem_cons_of_mem _ ht) u (List.mem_cons_of_mem _ hu) hlt
+      rcases List.mem_cons.mp this with h | h
+      · subst h
+        have := hnon t (hs'.subset ht)
+        have h2 := hnon u hu
+        omega
+      · exact h
+
+
 end KV.TxPool
